@@ -146,6 +146,22 @@ var entries = map[string]func(in []byte) error{
 		}
 		return gcsQueryAll(f)
 	},
+	// in: a serialized block; it is scanned against a filter (update-all) that contains scanItem
+	"BlockScan": func(in []byte) error {
+		b, err := bchutil.NewBlockFromBytes(in)
+		if err != nil {
+			return err
+		}
+		mk := func() *bloom.Filter {
+			f := bloom.NewFilter(10, 0, 0.0001, wire.BloomUpdateAll)
+			f.Add(scanItem)
+			return f
+		}
+		bloom.GetMatchedIndices(b, mk())
+		bloom.NewMerkleBlock(b, mk())
+		merkleblock.NewMerkleBlockWithFilter(b, mk())
+		return nil
+	},
 	"JsonpbUnmarshal": func(in []byte) error {
 		var m pb.GetBlockResponse
 		err := jsonpb.Unmarshal(bytes.NewReader(in), &m)
@@ -153,6 +169,44 @@ var entries = map[string]func(in []byte) error{
 		(&jsonpb.Unmarshaler{}).Unmarshal(bytes.NewReader(in), &m2)
 		return err
 	},
+}
+
+var scanItem = append([]byte{0x02}, bytes.Repeat([]byte{0x5a}, 32)...)
+
+// chainBlock: n transactions, transaction i spends `fan` outputs of transaction i-1 (fib: one output of each of
+// i-1 and i-2); every output pays to scanItem, so every transaction is relevant on its own and through its parents.
+func chainBlock(n, fan int, fib, reversed bool) []byte {
+	script := append(append([]byte{33}, scanItem...), 0xac)
+	txs := make([]*wire.MsgTx, n)
+	for i := 0; i < n; i++ {
+		tx := wire.NewMsgTx(1)
+		for k := 0; k < fan; k++ {
+			prev := chainhash.Hash{0xC8, byte(k)}
+			idx := uint32(k)
+			if fib {
+				idx = 0
+				if i-1-k >= 0 {
+					prev = txs[i-1-k].TxHash()
+				}
+			} else if i > 0 {
+				prev = txs[i-1].TxHash()
+			}
+			tx.AddTxIn(wire.NewTxIn(wire.NewOutPoint(&prev, idx), []byte{0x51}))
+		}
+		for k := 0; k < fan; k++ {
+			tx.AddTxOut(wire.NewTxOut(1000, script, wire.TokenData{}))
+		}
+		txs[i] = tx
+	}
+	blk := wire.NewMsgBlock(wire.NewBlockHeader(1, &chainhash.Hash{9}, &chainhash.Hash{}, 0x1d00ffff, 0))
+	for i := range txs {
+		if reversed {
+			blk.AddTransaction(txs[n-1-i])
+		} else {
+			blk.AddTransaction(txs[i])
+		}
+	}
+	return serBlock(blk)
 }
 
 func gcsQueryAll(f *gcs.Filter) error {
@@ -409,5 +463,16 @@ func runC08(c *Ctx) {
 	jsons = append(jsons, strings.Repeat("[", 3000)+strings.Repeat("]", 3000), strings.Repeat(`{"a":`, 3000)+"1"+strings.Repeat("}", 3000), `{"a":["00",1]}`, `{"a":[{"b":1},"00"]}`, `{"a":[["00"],"00"]}`, ``, `{`, `[1,`)
 	for _, j := range jsons {
 		call("JsonpbUnmarshal", []byte(j))
+	}	// blocks scanned against a filter: dependency chains and DAGs whose every transaction is relevant, children first
+	// (the scan re-checks dependants; the work must stay polynomial).  Last, because a scan that does not return keeps
+	// a goroutine busy for the rest of the run.
+	for _, n := range []int{2, 4, 8, 12, 16, 20, 24, 32, 64, 200} {
+		for _, fan := range []int{1, 2, 3} {
+			call("BlockScan", chainBlock(n, fan, false, true))
+			call("BlockScan", chainBlock(n, fan, false, false))
+			if fan > 1 {
+				call("BlockScan", chainBlock(n, fan, true, true))
+			}
+		}
 	}
 }
